@@ -88,6 +88,9 @@ func (r *rig) nameOf(p *actor.PID) string {
 	if strings.HasPrefix(p.ID, "eventstream/") {
 		return "stream"
 	}
+	if strings.HasPrefix(p.ID, "response/") {
+		return "req"
+	}
 	return p.ID
 }
 
@@ -113,6 +116,9 @@ func (r *rig) abstract(m any) (Ev, bool) {
 }
 
 func (r *rig) inner(m any) (int, string, bool) {
+	if m == nil {
+		return 0, "nil", true
+	}
 	switch y := m.(type) {
 	case testMsg:
 		return y.ID, "msg", true
@@ -305,10 +311,19 @@ func runCase(c *Case) (seen map[string][]Ev, problem string) {
 			if op.Sender == "snd" {
 				sender = snd
 			}
+			var payload any = testMsg{op.ID}
+			if op.B == "nil" {
+				payload = nil // the untyped nil is a message value like any other
+			}
 			done := make(chan struct{})
 			go func() {
 				defer close(done)
-				e.SendWithSender(target, testMsg{op.ID}, sender)
+				if op.Sender == "req" {
+					// through Engine.Request: the sender is the request's response PID; nobody answers
+					e.Request(target, payload, time.Millisecond).Result()
+					return
+				}
+				e.SendWithSender(target, payload, sender)
 			}()
 			select {
 			case <-done:
